@@ -12,6 +12,8 @@ from vlib import Infra
 
 
 def run(v, tier, seed, replay):
+    if replay:
+        return suvec.replay(v, replay, "asan")
     exe = suvec.build_driver("asan")
     ops = ("add", "neg", "icomm")
     cfg = suvec.bfs_cfg("C15_bfs", vecs=3, dims=(2, 3), exts=(1,), maxops=3 if tier == "quick" else 4, ops=ops, nblk=7)
